@@ -63,7 +63,7 @@ CLASS_CODES = {
 }
 LAYER_CODES = {'handshake': 0, 'read': 1, 'write': 2, 'close': 3}
 DEPTH_CODES = {'record': 0, 'parser': 1, 'direct': 2, 'checker': 3, 'pretry': 4, 'reconly': 5}
-ACTION_CODES = {'raise': 0, 'senderror': 1, 'peeralert': 2, 'shutraise': 3}
+ACTION_CODES = {'raise': 0, 'senderror': 1, 'peeralert': 2, 'shutraise': 3, 'shutraisesock': 4}
 FINAL_DONE = -1
 FINAL_UNKNOWN = -2
 
@@ -133,7 +133,7 @@ ALERT_CONSTS = [AlertDescription.close_notify, AlertDescription.unexpected_messa
                 AlertDescription.bad_record_mac, AlertDescription.decryption_failed,
                 AlertDescription.record_overflow, AlertDescription.bad_certificate,
                 AlertDescription.illegal_parameter, AlertDescription.decode_error,
-                AlertLevel.warning, AlertLevel.fatal]
+                AlertLevel.warning, AlertLevel.fatal, AlertDescription.decrypt_error]
 
 
 # --------------------------------------------------------------------------------------------
@@ -388,7 +388,7 @@ def _observe(case, seed):
                 # the first handshake record cannot be sent; _sendMsgThroughSocket then
                 # looks for an alert with _getNextRecord, whose record read raises
                 sock.fault = dict(kind='send', index=0, err=errno.EPIPE)
-                rl.recvRecord = _raiser(probe, exc_name, False, gen=True)
+                rl.recvRecord = _raiser(probe, exc_name, sf, gen=True)
             else:
                 raise ValueError(depth)
         elif how == 'genuine:bytes':
@@ -401,9 +401,24 @@ def _observe(case, seed):
             peer_sock.tap = case['tap']
         elif how == 'genuine:eof':
             scripted = b''
+        elif how == 'genuine:anon-no-mutual-group':
+            pass
         else:
             raise ValueError(how)
-        if scripted is not None:
+        if how == 'genuine:anon-no-mutual-group':
+            # real client offering only ECDH_anon with a group the server does not accept:
+            # AECDHKeyExchange.makeServerKeyExchange raises TLSInsufficientSecurity
+            # (keyexchange.py "No mutual groups") inside _serverAnonKeyExchange, which only
+            # catches TLSInternalError -> a residue class raised directly in the handshake body
+            if under != 'server':
+                raise ValueError('server under test')
+            cset = settings(minv=(3, 3), maxv=(3, 3), eccCurves=['secp521r1'], keyShares=[],
+                            keyExchangeNames=['ecdh_anon'])
+            sset = settings(minv=(3, 3), maxv=(3, 3), eccCurves=['secp256r1'], keyShares=[],
+                            keyExchangeNames=['ecdh_anon'])
+            gens = [p.server.handshakeServerAsync(anon=True, settings=sset),
+                    p.client.handshakeClientAnonymous(async_=True, settings=cset)]
+        elif scripted is not None:
             if under != 'client':
                 raise ValueError('scripted peer only for a client under test')
             sock.inbuf += scripted
@@ -582,6 +597,17 @@ FEASIBLE_PATCH = {
 }
 
 
+# Outside the model (its stated assumption is "sock.close() does not raise"): the TLS 1.2
+# client is between two flights with handshake records queued in BufferedSocket
+# (buffer_writes) when a callee raises and the transport is broken.  _shutdown() sets
+# closed, then BufferedSocket.close() flushes first, the flush raises socket.error out of
+# _shutdown: the real socket is never closed, session.resumable is not cleared, and the
+# socket.error replaces the original exception.  observe_case(FLUSH_FAILURE_CASE) shows
+# final_code = SockError, sock_closed False, empty trace.
+FLUSH_FAILURE_CASE = dict(layer='handshake', depth='direct', action=('raise', 11, -1), sf=True,
+                          how='patch', version=12)
+
+
 def _server_hello_bytes(cipher_suite, version=(3, 3)):
     sh = tlsmsg.ServerHello().create(version, bytearray(32), bytearray(0), cipher_suite)
     body = sh.write()
@@ -644,11 +670,17 @@ def genuine_cases():
         bytes=_alert_record(1, A.user_canceled), sf=True)
     add('handshake', 'reconly', ('shutraise', A.handshake_failure, 0), 'genuine:sendfail-alert',
         bytes=_alert_record(2, A.handshake_failure))
+    # ClientHello cannot be sent and the pending record is NOT an alert: since 0ab9df1
+    # _sendMsgThroughSocket shuts down and re-raises the socket error
+    add('handshake', 'reconly', ('shutraisesock', 0, 0), 'genuine:sendfail-alert', bytes=shd)
     # a real server whose ServerHello key share was replaced by zeros: the TLS 1.3 client
     # raises TLSIllegalParameterException from kex.calc_shared_key (tlsconnection.py 1296)
     # directly in the handshake body -> no alert (wrapper_no_alert_for_direct_raise)
     add('handshake', 'direct', raise_action('TLSIllegalParameterException'), 'genuine:tap',
         tap=tap_zero_key_share, version=13)
+    # residue of the wrapper's conversion, with genuine bytes (server under test)
+    add('handshake', 'direct', raise_action('TLSInsufficientSecurity'),
+        'genuine:anon-no-mutual-group', under='server')
     # --- read
     for ver in (12, 13):
         add('read', 'record', raise_action('TLSBadRecordMAC'), 'genuine:badmac',
@@ -698,8 +730,19 @@ def patch_cases(rng, quick=True):
                     variants = [dict(version=12), dict(version=13)]
                     if depth in ('record', 'parser', 'direct'):
                         variants.append(dict(version=rng.choice((12, 13)), under='server'))
-                    if depth in ('record', 'parser'):
+                    # a failing alert send; at direct / checker / reconly it exercises the
+                    # _sendError of the wrapper's own except clauses (no _shutdown after it)
+                    # (not at depth direct with TLS 1.2: there the injection point has queued
+                    # handshake writes, see FLUSH_FAILURE_CASE)
+                    if depth != 'direct':
                         variants.append(dict(version=12, sf=True))
+                    if depth in ('direct', 'checker'):
+                        variants.append(dict(version=13, sf=True))
+                    if depth in ('direct', 'checker') and name in (
+                            'TLSIllegalParameterException', 'TLSDecodeError',
+                            'TLSDecryptionFailed', 'AttributeError'):
+                        # fault-testing mode does not apply to the wrapper's own alerts
+                        variants.append(dict(version=12, fault=Fault.badA))
                     if depth == 'parser' and name in ('TLSIllegalParameterException', 'DecodeError',
                                                       'AttributeError', 'TLSRemoteAlert'):
                         variants.append(dict(version=12, fault=Fault.badA))
